@@ -30,12 +30,21 @@ RULE = ('case = (method, kernel, dim, 1-3 source arrays with 5-60 particles '
         'outside; flat or shaped; trailing coordinates omitted or not) or the '
         'automatic num_points grid, then 0-4 steps drawn from '
         'set_interpolation_points / set_domain(bounds, shape) / '
-        'update_particle_arrays(new arrays) / move particles + update() / '
-        'new field data + update()); after construction and each step all '
+        'update_particle_arrays(new arrays, one possibly empty) / move '
+        'particles + update() / new field data + update() / h scaled in '
+        'place + update() / particles removed from and added to one array in '
+        'place (down to an empty array) + update()); f is a double, float, '
+        'int or long property, g lives on a drawn array or on none, targets '
+        'are ndarrays or nested lists, in sph/shepard shards a third of the '
+        'cases pass the other method\'s equation as equations=; after '
+        'construction and each step all '
         'fields (order1: all components) are interpolated and compared. '
         "In 'ev-' shards the same shipped equations are driven through "
-        'SPHEvaluator (evaluate / update / update_particle_arrays) onto a '
-        'caller-made target array whose h differs from target to target. '
+        'SPHEvaluator (evaluate with default, positional and keyword t/dt '
+        'recorded by a time-stamp equation / update / update_particle_arrays,'
+        ' nnps_factory LinkedList, ZOrder, Octree or BoxSort, backend None, '
+        "'' or 'cython') onto "
+        'a caller-made target array whose h differs from target to target. '
         'Non-trivial = some compared target has >= 2 contributing sources '
         'that come from >= 2 arrays or have unequal m/rho; distinct by case '
         'hash.')
@@ -102,6 +111,17 @@ ASSUMPTIONS = [
     "anonymous groups is reset by the harness before each construction so "
     "that the generated source (and its JIT cache key) is the same for "
     "every case",
+    "Interpolator(...), set_interpolation_points and set_domain raise "
+    "ValueError (numpy reduction over nothing) when a source array has no "
+    "real particle; update() and update_particle_arrays() accept such "
+    "arrays.  Reported by the coverage audit; the first three are not "
+    "generated while such an array is present (label "
+    "excluded:points_with_empty_array)",
+    "update_particle_arrays receives the arrays in the order of "
+    "construction (the compiled code addresses the neighbour structure by "
+    "position; a permuted list silently gives NaN and is not generated)",
+    "strided properties cannot be interpolated (temp_prop has one value per "
+    "particle) and are not generated",
 ]
 ESSENTIAL_LABELS = {'all': [
     'dim1', 'dim2', 'dim3', 'narr>=2', 't:multi_array', 't:unequal_vol',
@@ -110,7 +130,13 @@ ESSENTIAL_LABELS = {'all': [
     'op:arrays', 'op:move', 'op:data', 'order1:wellcond', 'order1:3d',
     'linear_checked', 'constant_checked', 'missing_prop_checked',
     'bounds_checked', 'variable_h', 'nonreal_sources', 'mode:evaluator',
-    'variable_target_h']}
+    'variable_target_h',
+    # coverage audit
+    'custom_equations', 'ftype:float', 'ftype:int', 'ftype:long',
+    'g_missing_on_first_array', 'g_on_no_array', 'empty_source_array',
+    'op:resize', 'resize:removed', 'resize:added', 'resize:no_real_left',
+    'list_targets', 'targets_3d_shape', 'ev:t_dt_passed', 'ev:t_dt_default', 'ev:nnps_factory',
+    'ev:backend_given', 'excluded:points_with_empty_array']}
 SHARD_TIMEOUT = {'quick': 1500, 'thorough': 8 * 3600}
 
 METHODS = ['shepard', 'sph', 'order1', 'splash', 'splash_norm']
@@ -159,10 +185,21 @@ def _spread(coords_per_array, nreal, dim, anchored):
                 c0[a][1] = NLAT
 
 
+def _fval(k, ftype):
+    """Value of the field f for the drawn integer k: quarters for the
+    floating types, the integer itself for integer-typed properties."""
+    return float(k) if ftype in ('int', 'long') else k / 4.0
+
+
 @st.composite
-def arrays_strategy(draw, narr, dim, L, rs, periodic, anchored=False):
+def arrays_strategy(draw, narr, dim, L, rs, periodic, anchored=False,
+                    ftype='double', gowner=0, allow_empty=False):
     nmax = {1: 40, 2: 24, 3: 18}[narr]
     ns = [draw(st.integers(5 if i == 0 else 1, nmax)) for i in range(narr)]
+    if allow_empty and narr > 1 and draw(st.integers(0, 3)) == 0:
+        # an array without particles next to the others (e.g. an outlet
+        # that holds nothing at this output time)
+        ns[draw(st.integers(1, narr - 1))] = 0
     ntot = sum(ns)
     lo, hi = (-12, NLAT + 12) if periodic else (0, NLAT)
     if anchored:
@@ -206,9 +243,9 @@ def arrays_strategy(draw, narr, dim, L, rs, periodic, anchored=False):
                  y=[k * L / NLAT for k in coords[i][1]],
                  z=[k * L / NLAT for k in coords[i][2]],
                  h=hs, m=ms, rho=rhos,
-                 f=[k / 4.0 for k in draw(st.lists(
+                 f=[_fval(k, ftype) for k in draw(st.lists(
                      st.integers(-16, 16), min_size=n, max_size=n))])
-        if i == 0:
+        if i == gowner:
             a['g'] = [k / 4.0 for k in draw(st.lists(
                 st.integers(-16, 16), min_size=n, max_size=n))]
         arrays.append(a)
@@ -217,12 +254,15 @@ def arrays_strategy(draw, narr, dim, L, rs, periodic, anchored=False):
 
 @st.composite
 def points_strategy(draw, arrays, dim, L, periodic, evaluator=False):
-    kind = draw(st.sampled_from(['flat', 'flat', 'row', 'col', '2d']))
+    kind = draw(st.sampled_from(['flat', 'flat', 'row', 'col', '2d', '3d']))
     if evaluator:
         kind = 'flat'
     if kind == '2d':
         a, b = draw(st.sampled_from([2, 3])), draw(st.integers(1, 4))
         shape, n = [a, b], a * b
+    elif kind == '3d':
+        shape = [draw(st.sampled_from([2, 1, 3])) for _ in range(3)]
+        n = shape[0] * shape[1] * shape[2]
     else:
         n = draw(st.integers(1, 10))
         shape = {'flat': [n], 'row': [1, n], 'col': [n, 1]}[kind]
@@ -233,7 +273,8 @@ def points_strategy(draw, arrays, dim, L, periodic, evaluator=False):
     for _ in range(n):
         k = draw(st.sampled_from(kinds))
         if k == 'src':
-            ai = draw(st.integers(0, len(arrays) - 1))
+            ai = draw(st.sampled_from([i for i, a in enumerate(arrays)
+                                       if a['n'] > 0]))
             j = draw(st.integers(0, arrays[ai]['n'] - 1))
             p = [arrays[ai]['x'][j], arrays[ai]['y'][j], arrays[ai]['z'][j]]
         else:
@@ -244,7 +285,9 @@ def points_strategy(draw, arrays, dim, L, periodic, evaluator=False):
                 p[ax] += draw(st.sampled_from([6.0, -6.0, 9.0])) * L
         pts.append(p)
     spec = dict(kind='points', pts=pts, shape=shape,
-                omit=draw(st.booleans()))
+                omit=draw(st.booleans()),
+                # (nested) Python lists instead of ndarrays
+                as_list=draw(st.integers(0, 3)) == 0)
     if evaluator:
         # smoothing length of each target as a fraction of the largest
         # source h (<= 1 keeps periodic domains wide enough)
@@ -269,8 +312,114 @@ def domain_strategy(draw, dim, L):
     return dict(kind='domain', bounds=bounds, shape=shape)
 
 
+AKEYS = ('x', 'y', 'z', 'h', 'm', 'rho', 'f', 'g')
+
+
+def resize_map(a, op):
+    """Old model index -> new model index (None: removed) and the number of
+    real particles kept, for op = dict(remove=[model indices], add={...}):
+    the kept real particles, then the added (real) ones, then the kept
+    non-real tail."""
+    n = a['n']
+    nreal = n - a['nrem']
+    rem = set(op['remove'])
+    nadd = len(op['add']['x'])
+    mp = {}
+    k = 0
+    for i in range(nreal):
+        if i in rem:
+            mp[i] = None
+        else:
+            mp[i] = k
+            k += 1
+    nkept = k
+    k += nadd
+    for i in range(nreal, n):
+        if i in rem:
+            mp[i] = None
+        else:
+            mp[i] = k
+            k += 1
+    return mp, nkept
+
+
+def apply_resize(a, op):
+    """The array description after the in-place removal / addition."""
+    mp, nkept = resize_map(a, op)
+    n = a['n']
+    nreal = n - a['nrem']
+    out = dict(a)
+    for k in AKEYS:
+        if k not in a:
+            continue
+        real = [a[k][i] for i in range(nreal) if mp[i] is not None]
+        tail = [a[k][i] for i in range(nreal, n) if mp[i] is not None]
+        out[k] = real + list(op['add'][k]) + tail
+    out['nrem'] = len([i for i in range(nreal, n) if mp[i] is not None])
+    out['n'] = len(out['x'])
+    return out
+
+
+def _extent_ok(arrays, dim):
+    for ax in 'xyz'[:dim]:
+        v = [c for a in arrays for c in a[ax][:a['n'] - a['nrem']]]
+        if not v or max(v) == min(v):
+            return False
+    return True
+
+
+def _all_have_real(arrays):
+    return all(a['n'] - a['nrem'] > 0 for a in arrays)
+
+
 @st.composite
-def case_strategy(draw, method, kernel, narr, mode='interpolator'):
+def resize_strategy(draw, cur, dim, L, periodic, ftype):
+    ai = draw(st.integers(0, len(cur) - 1))
+    a = cur[ai]
+    n = a['n']
+    mode = draw(st.sampled_from(['some', 'some', 'grow', 'all']))
+    remove = []
+    nadd = draw(st.integers(0, 4))
+    if mode == 'all' and ai > 0:
+        remove, nadd = list(range(n)), 0
+    elif mode == 'grow' or n <= (2 if ai == 0 else 0):
+        nadd = draw(st.integers(1, 6))
+    else:
+        # particles 0 and 1 of the first array stay (they anchor the extent
+        # of the cloud in later moves)
+        remove = sorted(set(draw(st.lists(
+            st.integers(2 if ai == 0 else 0, n - 1), min_size=1,
+            max_size=6))))
+    lo, hi = (-12, NLAT + 12) if periodic else (0, NLAT)
+    c = _coords(draw, nadd, dim, lo, hi)
+    pool = [(h, m, r) for b in cur for h, m, r in zip(b['h'], b['m'],
+                                                      b['rho'])]
+    pick = [pool[draw(st.integers(0, len(pool) - 1))] for _ in range(nadd)]
+    add = dict(x=[v * L / NLAT for v in c[0]], y=[v * L / NLAT for v in c[1]],
+               z=[v * L / NLAT for v in c[2]], h=[t[0] for t in pick],
+               m=[t[1] for t in pick], rho=[t[2] for t in pick],
+               f=[_fval(k, ftype) for k in draw(st.lists(
+                   st.integers(-16, 16), min_size=nadd, max_size=nadd))])
+    if 'g' in a:
+        add['g'] = [k / 4.0 for k in draw(st.lists(
+            st.integers(-16, 16), min_size=nadd, max_size=nadd))]
+    op = dict(op='resize', ai=ai, remove=remove, add=add)
+    new = list(cur)
+    new[ai] = apply_resize(a, op)
+    if not _extent_ok(new, dim):
+        # the removal would flatten the cloud: add only
+        op['remove'] = []
+        new[ai] = apply_resize(a, op)
+    return op, new
+
+
+@st.composite
+def case_strategy(draw, method, kernel, narr, mode='interpolator',
+                  custom=None, ftype='double', gowner=0):
+    # ftype (type of the property f) and gowner (the array that carries the
+    # field g; -1: no array has it) are fixed per shard: the generated array
+    # wrappers list every property with its type, so each combination is a
+    # compile of its own
     ev = mode == 'evaluator'
     dim = draw(st.sampled_from(KDIMS.get(kernel, [1, 2, 3])))
     rs = RSCALE.get(kernel, 2.0)
@@ -284,8 +433,11 @@ def case_strategy(draw, method, kernel, narr, mode='interpolator'):
                 per[a] = 1
         periodic = dict(lo=[0.0] * 3, hi=[L] * 3, per=per)
     grid = draw(st.integers(0, 3)) == 0 and not ev
+    # Interpolator(...) itself cannot be built over an array without real
+    # particles (see `excluded:` labels); SPHEvaluator can
     arrays = draw(arrays_strategy(narr, dim, L, rs, periodic is not None,
-                                  anchored=grid))
+                                  anchored=grid, ftype=ftype, gowner=gowner,
+                                  allow_empty=ev))
     if grid:
         init = dict(kind='grid', num_points=draw(st.integers(5, 60)))
     else:
@@ -296,11 +448,19 @@ def case_strategy(draw, method, kernel, narr, mode='interpolator'):
         lin[1 + a] = 0.0
     ops = []
     cur = arrays
+    excluded = []
     for _ in range(draw(st.integers(0, 4))):
         k = draw(st.sampled_from(['points', 'points', 'domain', 'arrays',
-                                  'move', 'data', 'hgrow']))
+                                  'move', 'data', 'hgrow', 'resize']))
         if ev and k == 'domain':
             k = 'arrays'
+        if not ev and k in ('points', 'domain') and \
+                not _all_have_real(cur):
+            # Interpolator.set_interpolation_points raises ValueError when a
+            # source array has no real particle (reported by the coverage
+            # audit; excluded by construction and counted)
+            excluded.append('points_with_empty_array')
+            k = 'data'
         if k == 'points':
             ops.append(dict(op='points', targets=draw(points_strategy(
                 cur, dim, L, periodic is not None, ev))))
@@ -309,8 +469,13 @@ def case_strategy(draw, method, kernel, narr, mode='interpolator'):
                 dim, L))))
         elif k == 'arrays':
             cur = draw(arrays_strategy(narr, dim, L, rs,
-                                       periodic is not None))
+                                       periodic is not None, ftype=ftype,
+                                       gowner=gowner, allow_empty=True))
             ops.append(dict(op='arrays', arrays=cur))
+        elif k == 'resize':
+            op, cur = draw(resize_strategy(cur, dim, L, periodic is not None,
+                                           ftype))
+            ops.append(op)
         elif k == 'move':
             lo, hi = (-12, NLAT + 12) if periodic else (0, NLAT)
             pos = []
@@ -332,17 +497,30 @@ def case_strategy(draw, method, kernel, narr, mode='interpolator'):
             cur = [dict(a, h=[v * fac for v in a['h']]) for a in cur]
             ops.append(dict(op='hgrow', factor=fac))
         else:
-            fs = [[v / 4.0 for v in draw(st.lists(
+            fs = [[_fval(v, ftype) for v in draw(st.lists(
                 st.integers(-16, 16), min_size=a['n'], max_size=a['n']))]
                 for a in cur]
             cur = [dict(a, f=f) for a, f in zip(cur, fs)]
             ops.append(dict(op='data', f=fs))
-    return dict(method=method, kernel=kernel, dim=dim, L=L, arrays=arrays,
-                mode=mode, default_kernel=(kernel == 'Gaussian' and not ev and
+    case = dict(method=method, kernel=kernel, dim=dim, L=L, arrays=arrays,
+                mode=mode, default_kernel=(kernel == 'Gaussian' and
                                            draw(st.booleans())),
                 c=draw(st.sampled_from([2.5, -1.75, 1.0, 0.0])), lin=lin,
                 periodic=periodic, init=init, ops=ops,
-                order=draw(st.permutations(FIELDS)))
+                order=draw(st.permutations(FIELDS)),
+                ftype=ftype, gowner=gowner, excluded=excluded)
+    if custom and draw(st.integers(0, 2)) == 0:
+        # equations= handed to the constructor: they, not `method`, define
+        # the result
+        case['custom_eq'] = custom
+    if ev:
+        case['ev'] = dict(
+            tdt=draw(st.sampled_from([None, [0.0, 0.5], [1.5, 0.25],
+                                      [-2.0, 0.125]])),
+            factory=draw(st.sampled_from([None, None, 'ZOrderNNPS',
+                                          'OctreeNNPS', 'BoxSortNNPS'])),
+            backend=draw(st.sampled_from([None, 'cython', ''])))
+    return case
 
 
 # ------------------------------------------------------------------ model
@@ -357,7 +535,8 @@ class Model(object):
             n = a['n']
             d = dict((k, np.asarray(a[k], dtype=float))
                      for k in ('x', 'y', 'z', 'h', 'm', 'rho', 'f'))
-            d['g'] = np.asarray(a['g'], dtype=float) if i == 0 \
+            d['has_g'] = 'g' in a
+            d['g'] = np.asarray(a['g'], dtype=float) if 'g' in a \
                 else np.zeros(n)
             d['c'] = np.full(n, float(case['c']))
             tag = np.zeros(n, dtype=int)
@@ -373,7 +552,22 @@ class Model(object):
             d['lin'] = a0 + bx * d['x'] + by * d['y'] + bz * d['z']
 
     def hmax_real(self):
-        return max(float(d['h'][d['tag'] == 0].max()) for d in self.arr)
+        return max(float(d['h'][d['tag'] == 0].max()) for d in self.arr
+                   if (d['tag'] == 0).any())
+
+    def as_arrays(self):
+        """The current particles as array descriptions (as the strategies
+        draw them)."""
+        out = []
+        for d in self.arr:
+            nrem = int((d['tag'] != 0).sum())
+            a = dict(n=len(d['x']), nrem=nrem,
+                     remtag=int(d['tag'][-1]) if nrem else 1)
+            for k in AKEYS:
+                if k != 'g' or d['has_g']:
+                    a[k] = d[k].tolist()
+            out.append(a)
+        return out
 
     def make_arrays(self):
         import numpy as np
@@ -382,11 +576,15 @@ class Model(object):
         for i, d in enumerate(self.arr):
             n = len(d['x'])
             props = dict((k, d[k].copy()) for k in
-                         ('x', 'y', 'z', 'h', 'm', 'rho', 'f', 'c', 'lin'))
-            if i == 0:
+                         ('x', 'y', 'z', 'h', 'm', 'rho', 'c', 'lin'))
+            if d['has_g']:
                 props['g'] = d['g'].copy()
             props['uid'] = np.arange(n, dtype=float)
             pa = get_particle_array(name=NAMES[i], **props)
+            ftype = self.case.get('ftype', 'double')
+            npt = dict(double=np.float64, float=np.float32, int=np.int32,
+                       long=np.int64)[ftype]
+            pa.add_property('f', type=ftype, data=d['f'].astype(npt))
             pa.get_carray('tag').get_npy_array()[:] = d['tag']
             pa.align_particles()
             out.append(pa)
@@ -401,7 +599,7 @@ class Model(object):
             keep = tag != 2 if self.case['periodic'] else tag >= 0
             idx = uid[keep].astype(int)
             for nm in names:
-                if nm == 'g' and i != 0:
+                if nm == 'g' and not d['has_g']:
                     continue
                 arr = pa.get(nm, only_real_particles=False)
                 arr[keep] = d[nm][idx]
@@ -422,12 +620,12 @@ def _wrap(x, lo, hi):
 class Reference(object):
     """Pair data for the current sources and targets, from the definitions."""
 
-    def __init__(self, case, model, tx, th, kernel):
+    def __init__(self, case, model, tx, th, kernel, method=None):
         import numpy as np
         self.case = case
         self.K = kernel
         self.dim = case['dim']
-        self.method = case['method']
+        self.method = method or case['method']
         rs = float(kernel.radius_scale)
         self.rs = rs
         per = case['periodic']
@@ -694,15 +892,25 @@ class EvalAdapter(object):
     a caller-made destination array whose h varies from target to target;
     offers the part of the Interpolator interface that Run uses."""
 
-    def __init__(self, pas, kernel, domain, method, dim, x, y, z, h):
+    def __init__(self, pas, kernel, domain, method, dim, x, y, z, h,
+                 opts=None):
         from pysph.tools.sph_evaluator import SPHEvaluator
         self.method = method
         self.dim = dim
+        self.opts = opts
         self.particle_arrays = self._with_temp(pas)
         self.pa = self._dest(x, y, z, h)
+        kw = {}
+        if opts is not None:
+            if opts.get('factory'):
+                from pysph.base import nnps as N
+                kw['nnps_factory'] = getattr(N, opts['factory'])
+            if opts.get('backend') is not None:
+                kw['backend'] = opts['backend']
         self.ev = SPHEvaluator(self.particle_arrays + [self.pa],
                                self._equations(), dim=dim, kernel=kernel,
-                               domain_manager=domain)
+                               domain_manager=domain, **kw)
+        self.stamp = None
 
     @staticmethod
     def _with_temp(pas):
@@ -727,9 +935,24 @@ class EvalAdapter(object):
             pa.add_property('prop')
             if self.method == 'splash_norm':
                 pa.add_property('unity')
+        if self.opts is not None:
+            pa.add_property('tstamp')
+            pa.tstamp[:] = -777.0
         return pa
 
     def _equations(self):
+        eqs = self._method_equations()
+        if self.opts is not None:
+            from pysph.sph.equation import Group
+            from checks.c14_eqs import C14TimeStamp
+            ts = C14TimeStamp(dest='interpolate', sources=None)
+            if self.method == 'order1':
+                eqs.append(Group(equations=[ts], real=True))
+            else:
+                eqs.append(ts)
+        return eqs
+
+    def _method_equations(self):
         from pysph.sph.equation import Group
         from pysph.sph.basic_equations import SummationDensity
         from pysph.tools import interpolator as I
@@ -768,7 +991,16 @@ class EvalAdapter(object):
             data = a.get(prop, only_real_particles=False) \
                 if prop in a.properties else 0.0
             a.get('temp_prop', only_real_particles=False)[:] = data
-        self.ev.evaluate()
+        tdt = self.opts.get('tdt') if self.opts is not None else None
+        if tdt is None:
+            self.ev.evaluate()
+            tdt = [0.0, 0.1]        # the documented defaults
+        elif comp % 2:
+            self.ev.evaluate(tdt[0], tdt[1])
+        else:
+            self.ev.evaluate(t=tdt[0], dt=tdt[1])
+        if self.opts is not None:
+            self.stamp = (tdt[0] + 2.0 * tdt[1], self.pa.tstamp.copy())
         stride = 4 if self.method == 'order1' else 1
         return self.pa.prop[comp::stride].copy().squeeze()
 
@@ -779,7 +1011,9 @@ class Run(object):
         self.fails = []
         self.labels = set()
         self.nontrivial = False
-        self.method = case['method']
+        # the formula the result must follow: that of the equations handed
+        # to the constructor when there are any, else that of `method`
+        self.method = case.get('custom_eq') or case['method']
         self.dim = case['dim']
         self.ev = case.get('mode') == 'evaluator'
         self.component = 'SPHEvaluator' if self.ev else 'Interpolator'
@@ -835,7 +1069,24 @@ class Run(object):
                 periodic_in_z=bool(per['per'][2]))
         init = case['init']
         kw = dict(kernel=self.kernel, domain_manager=domain,
-                  method=self.method)
+                  method=case['method'])
+        if case.get('custom_eq'):
+            from pysph.tools import interpolator as I
+            eq = dict(shepard=I.InterpolateFunction,
+                      sph=I.InterpolateSPH)[case['custom_eq']]
+            kw['equations'] = [eq(dest='interpolate',
+                                  sources=NAMES[:len(pas)])]
+            self.labels.add('custom_equations')
+        self.labels.add('ftype:' + case.get('ftype', 'double'))
+        go = case.get('gowner', 0)
+        if go > 0:
+            self.labels.add('g_missing_on_first_array')
+        elif go < 0:
+            self.labels.add('g_on_no_array')
+        for e in case.get('excluded', []):
+            self.labels.add('excluded:' + e)
+        if any(a['n'] == 0 for a in case['arrays']):
+            self.labels.add('empty_source_array')
         if case.get('default_kernel'):
             # documented default: Gaussian of the dimension of the data
             kw['kernel'] = None
@@ -845,9 +1096,19 @@ class Run(object):
             self.labels.add('mode:evaluator')
             self.labels.add('targets:points')
             x, y, z = _target_arrays(init)
+            evo = case.get('ev')
+            if evo is not None:
+                if evo.get('tdt') is not None:
+                    self.labels.add('ev:t_dt_passed')
+                else:
+                    self.labels.add('ev:t_dt_default')
+                if evo.get('factory'):
+                    self.labels.add('ev:nnps_factory')
+                if evo.get('backend') is not None:
+                    self.labels.add('ev:backend_given')
             ok, ip = self.call('construct', 'SPHEvaluator', EvalAdapter, pas,
-                               self.kernel, domain, self.method, dim, x, y, z,
-                               self._target_h(init))
+                               kw['kernel'], domain, self.method, dim, x, y,
+                               z, self._target_h(init), evo)
             if not ok:
                 return
             self.ip = ip
@@ -902,8 +1163,13 @@ class Run(object):
             elif phase == 'arrays':
                 model = self.model = Model(case, op['arrays'])
                 pas = self.pas = model.make_arrays()
+                if any(a['n'] == 0 for a in op['arrays']):
+                    self.labels.add('empty_source_array')
                 ok, _ = self.call(phase, 'update_particle_arrays',
                                   ip.update_particle_arrays, pas)
+            elif phase == 'resize':
+                model = self._resize(model, pas, op)
+                ok, _ = self.call(phase, 'update', ip.update)
             elif phase == 'move':
                 for d, p in zip(model.arr, op['pos']):
                     for k in 'xyz':
@@ -930,12 +1196,58 @@ class Run(object):
         if not self.fails and not self.ev:
             self._check_rejections()
 
+    def _resize(self, model, pas, op):
+        """Particles are removed from / added to one source array in place
+        (the caller then runs update()); -> the new model."""
+        import numpy as np
+        ai = op['ai']
+        cur = model.as_arrays()
+        old = cur[ai]
+        mp, nkept = resize_map(old, op)
+        new = apply_resize(old, op)
+        pa = pas[ai]
+        uid = pa.get('uid', only_real_particles=False)
+        tag = pa.get('tag', only_real_particles=False)
+        keep = tag != 2 if self.case['periodic'] else tag >= 0
+        gone = [i for i in range(len(uid))
+                if keep[i] and mp[int(uid[i])] is None]
+        if gone:
+            pa.remove_particles(np.array(gone, dtype=int))
+            self.labels.add('resize:removed')
+        add = op['add']
+        nadd = len(add['x'])
+        if nadd:
+            props = dict((k, np.asarray(add[k], dtype=float))
+                         for k in AKEYS if k in add)
+            props['c'] = np.full(nadd, float(self.case['c']))
+            a0, bx, by, bz = self.case['lin']
+            props['lin'] = a0 + bx * props['x'] + by * props['y'] + \
+                bz * props['z']
+            props['uid'] = -1.0 - np.arange(nadd)
+            pa.add_particles(**props)
+            self.labels.add('resize:added')
+        uid = pa.get('uid', only_real_particles=False)
+        tag = pa.get('tag', only_real_particles=False)
+        for i in range(len(uid)):
+            if self.case['periodic'] and tag[i] == 2:
+                continue
+            u = int(uid[i])
+            uid[i] = nkept + (-1 - u) if u < 0 else mp[u]
+        cur[ai] = new
+        if new['n'] - new['nrem'] == 0:
+            self.labels.add('resize:no_real_left')
+        self.model = Model(self.case, cur)
+        return self.model
+
     def _target_h(self, spec):
         hm = self.model.hmax_real()
         return [hm * f for f in spec['hf']]
 
     def _point_kwargs(self, spec):
         x, y, z = _target_arrays(spec)
+        if spec.get('as_list'):
+            x, y, z = x.tolist(), y.tolist(), z.tolist()
+            self.labels.add('list_targets')
         kw = dict(x=x)
         if self.dim >= 2 or not spec['omit']:
             kw['y'] = y
@@ -945,6 +1257,8 @@ class Run(object):
             self.labels.add('omit_coords')
         if len(spec['shape']) > 1:
             self.labels.add('shaped_targets')
+        if len(spec['shape']) > 2:
+            self.labels.add('targets_3d_shape')
         return kw
 
     def _check_auto_grid(self, init):
@@ -1036,7 +1350,7 @@ class Run(object):
             return
         if not self.ev and self.hset != self.model.hmax_real():
             self.labels.add('stale_target_h')
-        ref = Reference(case, self.model, pts, th, self.kernel)
+        ref = Reference(case, self.model, pts, th, self.kernel, self.method)
         if ref.wrapped:
             self.labels.add('wrapped_source')
         if ref.image_used:
@@ -1091,6 +1405,13 @@ class Run(object):
                 if not ok:
                     return
                 ncall += 1
+                stamp = getattr(ip, 'stamp', None)
+                if stamp is not None and len(stamp[1]) and \
+                        not (stamp[1] == stamp[0]).all():
+                    self.fail('evaluator_time', 'evaluate(t, dt) with t + '
+                              '2 dt = %r: the equations saw t + 2 dt = %r' % (
+                                  stamp[0], stamp[1][:4].tolist()), phase)
+                    return
                 res = np.asarray(res, dtype=float)
                 if tuple(res.shape) != tuple(rshape):
                     self.fail('result_shape', 'interpolate(%r, %d) has shape '
@@ -1189,9 +1510,19 @@ def plan(ctx):
     specs = []
 
     def add(m, k, narr, n, mode='interpolator'):
+        custom = None
+        if mode == 'interpolator':
+            # in these shards a third of the cases hand the equations of the
+            # other method to the constructor (one more compile per shard)
+            custom = dict(sph='shepard', shepard='sph').get(m)
+        # rotate the type of f and the owner of g over the shards
+        i = len(specs) + seed
+        ftype = ['double', 'float', 'int', 'long'][i % 4]
+        gowner = [0, narr - 1, -1, 0, min(1, narr - 1)][i % 5]
         specs.append(dict(name='%s%s-%s-%d' % (
             'ev-' if mode == 'evaluator' else '', m, k, narr), method=m,
-            kernel=k, narr=narr, n=n, mode=mode,
+            kernel=k, narr=narr, n=n, mode=mode, custom=custom,
+            ftype=ftype, gowner=gowner,
             # signature of a crash of the worker
             component='SPHEvaluator' if mode == 'evaluator'
             else 'Interpolator', klass=dict(method=m)))
@@ -1211,9 +1542,11 @@ def plan(ctx):
 
 def run_shard(spec, ctx):
     stats = Stats()
-    stats.extra['jit_compiles'] = 1
+    stats.extra['jit_compiles'] = 2 if spec.get('custom') else 1
     search(case_strategy(spec['method'], spec['kernel'], spec['narr'],
-                         spec.get('mode', 'interpolator')),
+                         spec.get('mode', 'interpolator'),
+                         spec.get('custom'), spec.get('ftype', 'double'),
+                         spec.get('gowner', 0)),
            execute, derive_seed(ctx.seed, 'C14', spec['name']), spec['n'],
            stats, shrink=True, journal=ctx.journal)
     return stats.result()
